@@ -74,7 +74,8 @@ def rsSplit (S : Pat) (second : Bool) : Array Int :=
 def symGraph (S : Pat) : PyamgV.Graph := ⟨S.n, rowFn (symRows S.n (offRows S))⟩
 
 def setDirichlet (S : Pat) (x : Array Int) : Array Int :=
-  (Array.range S.n).map (fun i => if ((symGraph S).adj i).isEmpty then 0 else x.getD i 0)
+  let g := symGraph S
+  (Array.range S.n).map (fun i => if (g.adj i).isEmpty then 0 else x.getD i 0)
 
 variable {W : Type} [LT W] [DecidableRel (α := W) (· < ·)] [DecidableEq W] [Inhabited W]
 
